@@ -1,10 +1,14 @@
 import SwcVerif.Model.Basic
 import SwcVerif.Model.Traverse
+import SwcVerif.Model.Geom
 
 def dispatch (op : String) (args : List String) : String :=
   match op with
   | "ping" => "pong " ++ " ".intercalate args
   | "trav" => Trav.handle args
+  | "affine" => Geom.handleAffine args
+  | "mat" => Geom.handleMat args
+  | "vol" => Geom.handleVol args
   | _ => "bad-op"
 
 partial def loop (h : IO.FS.Stream) (out : IO.FS.Stream) : IO Unit := do
